@@ -218,7 +218,8 @@ def baulk(ctx, P, iters):
             gf = {}
             guards.assume(g.d["formula"], g.pol, gf)
             defs = {e.d["target"]: e.d["value"] for e in evs if e.kind == "assign"}
-            dec = [(a, v) for a, v in gf.items() if a[0] == "lt" and a[2].startswith("%s.baulking_functions[self.next_class](%s.number_of_individuals" % (node, node))
+            from ..scans import _subst
+            dec = [(a, v) for a, v in gf.items() if a[0] == "lt" and _subst(a[2], defs).strip("()").startswith("%s.baulking_functions[self.next_class](%s.number_of_individuals" % (node, node))
                    and (defs.get(a[1]) == "random()" or a[1] == "random()")]
             if len(dec) != 1:
                 viol("baulk-comparison", g.text[:120], "baulk iff random() < baulking_function(%s.number_of_individuals, ...): strict `<`, the random draw on the left, the population of the node to join as first argument" % node, g.where)
